@@ -12,10 +12,11 @@ func init() {
 		},
 	}
 	Props["C14"] = PropDef{
-		Explanation: "T-REGIDX: every access of the [32][32] offsets/Timestamps tables is indexed [z][x], the orientation setHead (4*(z*32+x)) and the flat big-endian transfer in Load/CreateWriter use on disk. R-ORDER: the over-limit refusal dominates every state change and file write of WriteSector; every in-memory header update is followed by setHead; Load's occupancy scan visits every entry. R-TLG: the declared chunk length in ReadSector is sign- and range-checked before allocation. Not decided: disjointness of live sector runs over all histories, first-fit search, read-back equality.",
+		Explanation: "T-REGIDX: every access of the [32][32] offsets/Timestamps tables is indexed [z][x], the orientation setHead (4*(z*32+x)) and the flat big-endian transfer in Load/CreateWriter use on disk. R-ORDER: the over-limit refusal dominates every state change and file write of WriteSector; every in-memory header update is followed by setHead; Load's occupancy scan visits every entry; the free-space search accepts a position only after looking up every sector it needs. R-TLG: the declared chunk length in ReadSector is sign- and range-checked before allocation. Not decided: disjointness of live sector runs over all histories, first-fit search, read-back equality.",
 		Run: func(c *Ctx) []core.Ob {
 			obs := c.RegionIndex()
 			obs = append(obs, c.RegionOrder()...)
+			obs = append(obs, c.RegionFindSpace()...)
 			in := pkgPred("save/region")
 			obs = append(obs, c.TLGObs(in, in, false)...)
 			obs = append(obs, c.ErrFlow(in, in)...)
@@ -23,7 +24,7 @@ func init() {
 		},
 	}
 	Props["C15"] = PropDef{
-		Explanation: "R-ORIGIN: only CreateWriter/WriteSector/PadToFullSector/writeAt write the backing file; WriteSector's data write is positioned only from this chunk's own header slot or from findSpace; setHead receives WriteSector's own (x, z). R-ORDER: header update mirrored to disk; Load rebuilds occupancy from every header entry. A necessary condition of crash isolation (no physical write is addressed by another chunk's slot). Not decided: that the chosen run is free in every reachable allocation state and crash prefix.",
+		Explanation: "R-ORIGIN: only CreateWriter/WriteSector/PadToFullSector/writeAt write the backing file; WriteSector's data write is positioned only from this chunk's own header slot or from findSpace; setHead receives WriteSector's own (x, z). R-ORDER: header update mirrored to disk; Load rebuilds occupancy from every header entry; the free-space search looks up every sector of a run before accepting it. A necessary condition of crash isolation (no physical write is addressed by another chunk's slot). Not decided: that the chosen run is free in every reachable allocation state and crash prefix.",
 		Run: func(c *Ctx) []core.Ob {
 			obs := c.RegionOrigin()
 			for _, o := range c.RegionOrder() {
@@ -32,6 +33,7 @@ func init() {
 					obs = append(obs, o)
 				}
 			}
+			obs = append(obs, c.RegionFindSpace()...)
 			return obs
 		},
 	}
